@@ -147,3 +147,9 @@ func VerifEnvelopeWrite(
 	}
 	return nil
 }
+
+// VerifDrain exposes drainUpTo: what is left of the reader is thrown away, up
+// to limit bytes; atEnd reports whether the reader ended within them.
+func VerifDrain(reader io.Reader, limit int64) (bool, error) {
+	return drainUpTo(reader, limit)
+}
